@@ -162,8 +162,8 @@ Print Assumptions C08_nonce_order_except_known.
    C08_report_sound_cycle = C08_provable composed with C07 across the cycle: for every cycle of three rounds, every
    chain report r of the Filter round's execute report, handed to VerifyComputeRoot the way the destination does it
    (leaves = hashes of the included messages, flags = the first |leaves|+|proofs|-1 bits of ProofFlagBits), yields
-   exactly the root of a commit report x that >= f_j + 1 distinct oracles reported identically in the GetCommitReports
-   round (j = the chain key it was filed under) and that names r's source chain.  Hypotheses: the internal hash is
+   exactly the root of a commit report x that >= f_dest + 1 distinct oracles reported identically in the GetCommitReports
+   round under the key of r's source chain, which x names (after the repairs of F75).  Hypotheses: the internal hash is
    commutative and no pending commit report has more than 256 messages (the verifier's own limit). *)
 Require Import Verif.Model.Consensus Verif.Model.ExecSys Verif.Proofs.ExecSysP.
 Theorem C08_report_sound_cycle :
@@ -182,8 +182,8 @@ Theorem C08_report_sound_cycle :
   (forall a b : N, hash a b = hash b a) ->
   (forall cd, In cd (o_pending o2) -> length (c_msgs cd) <= 256) ->
   In r (o_report o3) -> Forall2 (fun (mm : msg) (h : N) => leaf_hash mm = Some h) (r_msgs r) hs ->
-  exists (x : xcommit) (j : N) (fj : Z),
-    In (j, fj) fc1 /\ quorum (xcommits_of j) (f_plus_1 fj) aos1 x /\ c_src (xc_cd x) = r_src r /\
+  exists (x : xcommit),
+    quorum (xcommits_of (r_src r)) (f_plus_1 (EM.f_dest dest fc1)) aos1 x /\ c_src (xc_cd x) = r_src r /\
     verify hash hs (r_proofs r) (flags_to_bools (r_flags r) (length hs + length (r_proofs r) - 1))
       = Ok (c_root (xc_cd x)).
 Proof. exact cycle_report_sound. Qed.
